@@ -108,7 +108,7 @@ Lemma blanks_sp : blanks [32]. Proof. repeat constructor. Qed.
 Ltac eqnorm :=
   bsnorm; unfold kw_method, kw_error, kw_type, kw_interface, kw_arrow, kw_optional, kw_array, kw_map,
     kw_display_optional, kw_display_array, kw_display_map, NL;
-  repeat (progress (rewrite <- ?app_assoc; cbn [app])); reflexivity.
+  repeat (progress (rewrite <- ?app_assoc; cbn [app])); rewrite ?app_nil_r; reflexivity.
 
 (* ------------------------------------------------------------------ types *)
 
@@ -144,4 +144,319 @@ Proof.
         apply (Ltail_display wsgap Lfield (fun g => g) render_field fs wsgap_sp).
         intros y Hy. apply Hall. right. exact Hy.
       * rewrite render_fields_cons. eqnorm.
+Qed.
+
+(* ------------------------------------------------------------------ direct fields, lists, members *)
+
+Definition dfield_nl (f : field) : bool := field_names_ok f && field_wf_nl f.
+
+Lemma Ldfield_render f : dfield_nl f = true -> Ldfield (nfield f) (render_field f).
+Proof.
+  unfold dfield_nl, field_names_ok, field_wf_nl. intros H.
+  apply andb_true_iff in H. destruct H as [H1 H2]. apply andb_true_iff in H1. destruct H1 as [Hn Htn].
+  apply andb_true_iff in H2. destruct H2 as [Hc Htw].
+  split; [exact Hn|]. cbn [nfield fname fty fcomments].
+  exists (render_comments (fcomments f)), [], [32], (render_ty (fty f)).
+  split; [now apply clines_render|]. split; [constructor|]. split; [apply blanks_sp|].
+  split; [apply Lty_render; unfold tywf; now rewrite Htn, Htw|].
+  rewrite render_field_eq. eqnorm.
+Qed.
+
+Lemma Llist_display {X Y} (LX : Y -> list byte -> Prop) (h : X -> Y) (rend : X -> list byte) (l : list X) :
+  (forall y, In y l -> LX (h y) (rend y)) ->
+  Llist LX (List.map h l) (40 :: join comma_sp (List.map rend l) ++ [41]).
+Proof.
+  intros H. destruct l as [|a l].
+  - cbn. exists []. split; [constructor | reflexivity].
+  - cbn [List.map Llist]. exists [], (rend a), (flat_map (fun y => bs ", " ++ rend y) l), [].
+    split; [constructor|]. split; [constructor|]. split; [apply H; left; reflexivity|]. split.
+    + apply (Ltail_display blanks LX h rend l blanks_sp). intros y Hy. apply H. right. exact Hy.
+    + unfold join. rewrite flat_map_map. unfold comma_sp. eqnorm.
+Qed.
+
+Lemma Lplist_render fs : forallb dfield_nl fs = true ->
+  Lplist (List.map nfield fs) (40 :: render_fields fs ++ [41]).
+Proof.
+  intros H. unfold Lplist, render_fields. apply Llist_display.
+  intros y Hy. apply Ldfield_render. rewrite forallb_forall in H. now apply H.
+Qed.
+
+Definition method_nl (m : method) : bool :=
+  type_name_ok (mname m) && comments_nl (mcomments m)
+  && forallb dfield_nl (minputs m) && forallb dfield_nl (moutputs m).
+Definition error_nl (e : error) : bool :=
+  type_name_ok (ename e) && comments_nl (ecomments e) && forallb dfield_nl (efields e).
+Definition variant_nl (v : variant) : bool := field_name_ok (vname v) && comments_nl (vcomments v).
+Definition custom_nl (c : custom) : bool :=
+  match c with
+  | CObject n fs cs => type_name_ok n && comments_nl cs && forallb dfield_nl fs
+  | CEnum n vs cs => type_name_ok n && comments_nl cs && forallb variant_nl vs && enum_shape_ok vs
+  end.
+Definition member_nl (m : member) : bool :=
+  match m with MType c => custom_nl c | MMethod m => method_nl m | MError e => error_nl e end.
+
+Lemma blanks1_sp : blanks1 [32]. Proof. split; [apply blanks_sp | discriminate]. Qed.
+
+Lemma Lmethod_render m : method_nl m = true -> Lmethod (nmethod m) (render_method m).
+Proof.
+  unfold method_nl. intros H. apply andb_true_iff in H. destruct H as [H Houts].
+  apply andb_true_iff in H. destruct H as [H Hins]. apply andb_true_iff in H. destruct H as [Hn Hc].
+  split; [exact Hn|]. cbn [nmethod mname minputs moutputs mcomments].
+  exists (render_comments (mcomments m)), [32], [], (40 :: render_fields (minputs m) ++ [41]), [32], [32],
+    (40 :: render_fields (moutputs m) ++ [41]).
+  split; [now apply clines_render|]. split; [apply blanks1_sp|]. split; [constructor|].
+  split; [apply blanks_sp|]. split; [apply blanks_sp|].
+  split; [now apply Lplist_render|]. split; [now apply Lplist_render|].
+  unfold render_method. eqnorm.
+Qed.
+
+Lemma Lerror_render e : error_nl e = true -> Lerror (nerror e) (render_error e).
+Proof.
+  unfold error_nl. intros H. apply andb_true_iff in H. destruct H as [H Hfs].
+  apply andb_true_iff in H. destruct H as [Hn Hc].
+  split; [exact Hn|]. cbn [nerror ename efields ecomments].
+  exists (render_comments (ecomments e)), [32], [32], (40 :: render_fields (efields e) ++ [41]).
+  split; [now apply clines_render|]. split; [apply blanks1_sp|]. split; [apply blanks_sp|].
+  split; [now apply Lplist_render|]. unfold render_error. eqnorm.
+Qed.
+
+Lemma Lcustom_render c : custom_nl c = true -> Lcustom (ncustom c) (render_custom c).
+Proof.
+  destruct c as [n fs cs | n vs cs]; cbn [custom_nl ncustom render_custom Lcustom]; intros H.
+  - apply andb_true_iff in H. destruct H as [H Hfs]. apply andb_true_iff in H. destruct H as [Hn Hc].
+    split; [exact Hn|].
+    exists (render_comments cs), [32], [32], (40 :: render_fields fs ++ [41]).
+    split; [now apply clines_render|]. split; [apply blanks1_sp|]. split; [apply blanks_sp|].
+    split; [now apply Lplist_render|]. unfold render_object. eqnorm.
+  - apply andb_true_iff in H. destruct H as [H Hshape]. apply andb_true_iff in H. destruct H as [H Hvs].
+    apply andb_true_iff in H. destruct H as [Hn Hc].
+    split; [exact Hn|]. split; [destruct vs; [discriminate | discriminate]|].
+    destruct (existsb has_comments vs) eqn:Eex.
+    + (* one commented variant: the multi-line form *)
+      assert (Hone : exists v, vs = [v]).
+      { destruct vs as [|v [|v2 vs]]; [discriminate | eauto |].
+        cbn [enum_shape_ok] in Hshape. apply forallb_negb_existsb in Hshape. congruence. }
+      destruct Hone as [v ->]. cbn [forallb] in Hvs. apply andb_true_iff in Hvs. destruct Hvs as [Hv _].
+      unfold variant_nl in Hv. apply andb_true_iff in Hv. destruct Hv as [Hvn Hvc].
+      assert (Hhc : has_comments v = true) by (cbn in Eex; now rewrite orb_false_r in Eex).
+      exists (render_comments cs), [32], [32],
+        (40 :: [10; 9] ++ (comment_block [9] (vcomments v) ++ vname v) ++ [] ++ [10] ++ [41]).
+      split; [now apply clines_render|]. split; [apply blanks1_sp|]. split; [apply blanks_sp|]. split.
+      * cbn [List.map Llist]. exists [10; 9], (comment_block [9] (vcomments v) ++ vname v), [], [10].
+        split; [repeat constructor|]. split; [repeat constructor|]. split; [|split; reflexivity].
+        split; [exact Hvn|]. cbn [nvariant vname vcomments]. exists (comment_block [9] (vcomments v)).
+        split; [apply clines_block; [repeat constructor | exact Hvc] | reflexivity].
+      * unfold render_cenum. pose proof (render_enum_one v [] Hhc) as E. rewrite app_nil_r in E. rewrite E.
+        unfold variant_line. cbn [entries_tail flat_map]. eqnorm.
+    + (* single-line form: no variant is commented *)
+      pose proof (existsb_false_forallb _ _ Eex) as Hnc.
+      destruct vs as [|v vs]; [discriminate|].
+      assert (Hvar : forall w, In w (v :: vs) -> Lvariant (nvariant w) (vname w)).
+      { intros w Hw. rewrite forallb_forall in Hvs, Hnc. specialize (Hvs w Hw). specialize (Hnc w Hw).
+        unfold variant_nl in Hvs. apply andb_true_iff in Hvs. destruct Hvs as [Hwn _].
+        apply negb_true_iff in Hnc. unfold has_comments in Hnc.
+        split; [exact Hwn|]. cbn [nvariant vname vcomments]. exists [].
+        destruct (vcomments w); [split; [constructor | reflexivity] | discriminate]. }
+      exists (render_comments cs), [32], [32], (40 :: join comma_sp (List.map vname (v :: vs)) ++ [41]).
+      split; [now apply clines_render|]. split; [apply blanks1_sp|]. split; [apply blanks_sp|]. split.
+      * apply (Llist_display Lvariant nvariant vname (v :: vs)). exact Hvar.
+      * unfold render_cenum. rewrite render_enum_single by exact Hnc. eqnorm.
+Qed.
+
+Lemma Lmember_render m : member_nl m = true -> Lmember (nmember m) (render_member m).
+Proof.
+  destruct m as [c | m | e]; cbn [member_nl nmember render_member Lmember]; intros H.
+  - now apply Lcustom_render. - now apply Lmethod_render. - now apply Lerror_render.
+Qed.
+
+Lemma Lmembers_render : forall ms, forallb member_nl ms = true ->
+  Lmembers (List.map nmember ms) (members_text ms).
+Proof.
+  induction ms as [|m ms IH]; intros H; [reflexivity|].
+  cbn [forallb] in H. apply andb_true_iff in H. destruct H as [Hm Hms].
+  cbn [List.map Lmembers members_text flat_map]. fold (members_text ms).
+  exists [10; 10], (render_member m), (members_text ms).
+  split; [split; [repeat constructor | discriminate]|]. split; [now apply Lmember_render|].
+  split; [now apply IH|]. eqnorm.
+Qed.
+
+(* ------------------------------------------------------------------ the interface *)
+
+Definition iface_nl (t : interface) : bool :=
+  interface_name_ok (iname t) && comments_nl (icomments t)
+  && forallb custom_nl (itypes t) && forallb method_nl (imethods t) && forallb error_nl (ierrors t).
+
+Lemma members_nl t : iface_nl t = true -> forallb member_nl (members_of t) = true.
+Proof.
+  unfold iface_nl, members_of. intros H.
+  apply andb_true_iff in H. destruct H as [H He]. apply andb_true_iff in H. destruct H as [H Hm].
+  apply andb_true_iff in H. destruct H as [_ Ht].
+  rewrite !forallb_app, !forallb_map_eq.
+  apply andb_true_iff; split; [exact Ht | apply andb_true_iff; split; [exact Hm | exact He]].
+Qed.
+
+Lemma Linterface_render t : iface_nl t = true ->
+  Linterface (iname t) (ncs (icomments t)) (List.map nmember (members_of t)) (render t).
+Proof.
+  intros Hok. pose proof (members_nl t Hok) as Hms. unfold iface_nl in Hok.
+  apply andb_true_iff in Hok. destruct Hok as [Hok _]. apply andb_true_iff in Hok. destruct Hok as [Hok _].
+  apply andb_true_iff in Hok. destruct Hok as [Hok _]. apply andb_true_iff in Hok. destruct Hok as [Hn Hc].
+  split; [exact Hn|].
+  exists [], (render_comments (icomments t)), [32], (members_text (members_of t)), [].
+  split; [constructor|]. split; [constructor|]. split; [now apply clines_render|].
+  split; [apply blanks1_sp|]. split; [now apply Lmembers_render|].
+  rewrite render_members. eqnorm.
+Qed.
+
+Lemma interface_of_normalise t :
+  interface_of (iname t) (ncs (icomments t)) (List.map nmember (members_of t)) = normalise t.
+Proof.
+  unfold interface_of, members_of, normalise. rewrite !List.map_app, !List.map_map.
+  rewrite !mem_types_app, !mem_methods_app, !mem_errors_app.
+  change (List.map (fun x => nmember (MType x)) (itypes t)) with (List.map (fun x => MType (ncustom x)) (itypes t)).
+  change (List.map (fun x => nmember (MMethod x)) (imethods t)) with (List.map (fun x => MMethod (nmethod x)) (imethods t)).
+  change (List.map (fun x => nmember (MError x)) (ierrors t)) with (List.map (fun x => MError (nerror x)) (ierrors t)).
+  rewrite <- (List.map_map ncustom MType), <- (List.map_map nmethod MMethod), <- (List.map_map nerror MError).
+  rewrite mem_types_T, mem_types_M, mem_types_E, mem_methods_T, mem_methods_M, mem_methods_E,
+    mem_errors_T, mem_errors_M, mem_errors_E.
+  cbn [app]. now rewrite !app_nil_r.
+Qed.
+
+Theorem parse_render_normalise t : iface_nl t = true -> parse_interface (render t) = Accept (normalise t).
+Proof.
+  intros H. rewrite <- interface_of_normalise. apply parse_layout. now apply Linterface_render.
+Qed.
+
+(* ------------------------------------------------------------------ from the executable hypotheses *)
+
+Lemma wf_nl_custom c :
+  custom_names_ok c = true -> custom_wf_nl c = true ->
+  (match c with CEnum _ ((_ :: _ :: _) as vs) _ => existsb has_comments vs | _ => false end) = false ->
+  custom_nl c = true.
+Proof.
+  destruct c as [n fs cs | n vs cs]; cbn [custom_names_ok custom_wf_nl custom_nl]; intros Hn Hw Hk.
+  - apply andb_true_iff in Hn. destruct Hn as [Hn1 Hn2]. apply andb_true_iff in Hw. destruct Hw as [Hw1 Hw2].
+    rewrite Hn1, Hw1. cbn [andb]. unfold dfield_nl. now apply forallb_and.
+  - apply andb_true_iff in Hn. destruct Hn as [Hn1 Hn2].
+    apply andb_true_iff in Hw. destruct Hw as [Hw Hw3]. apply andb_true_iff in Hw. destruct Hw as [Hw1 Hw2].
+    rewrite Hn1, Hw1. cbn [andb]. apply andb_true_iff. split.
+    + unfold variant_nl. apply forallb_and; [exact Hn2 | exact Hw3].
+    + destruct vs as [|v [|v2 vs]]; [discriminate | reflexivity |].
+      cbn [enum_shape_ok]. now apply existsb_false_forallb.
+Qed.
+
+Lemma wf_nl_iface t :
+  interface_wf_nl t = true -> known_commented_enum t = false -> iface_nl t = true.
+Proof.
+  unfold interface_wf_nl, names_ok, known_commented_enum, iface_nl. intros Hw Hk.
+  apply andb_true_iff in Hw. destruct Hw as [Hw He]. apply andb_true_iff in Hw. destruct Hw as [Hw Hm].
+  apply andb_true_iff in Hw. destruct Hw as [Hw Ht]. apply andb_true_iff in Hw. destruct Hw as [Hn Hc].
+  apply andb_true_iff in Hn. destruct Hn as [Hn Hne]. apply andb_true_iff in Hn. destruct Hn as [Hn Hnm].
+  apply andb_true_iff in Hn. destruct Hn as [Hni Hnt].
+  rewrite Hni, Hc. cbn [andb].
+  apply andb_true_iff. split; [apply andb_true_iff; split|].
+  - apply forallb_forall. intros c Hin. rewrite forallb_forall in Hnt, Ht.
+    apply wf_nl_custom; [now apply Hnt | now apply Ht|].
+    destruct (match c with CEnum _ ((_ :: _ :: _) as vs) _ => existsb has_comments vs | _ => false end) eqn:E;
+      [|reflexivity].
+    assert (Hex : existsb (fun c0 => match c0 with CEnum _ ((_ :: _ :: _) as vs) _ => existsb has_comments vs
+                                                | _ => false end) (itypes t) = true)
+      by (apply existsb_exists; exists c; auto).
+    congruence.
+  - apply forallb_forall. intros m Hin. rewrite forallb_forall in Hnm, Hm.
+    specialize (Hnm m Hin). specialize (Hm m Hin). unfold method_names_ok in Hnm. unfold method_nl.
+    apply andb_true_iff in Hnm. destruct Hnm as [Hnm Hn3]. apply andb_true_iff in Hnm. destruct Hnm as [Hn1 Hn2].
+    apply andb_true_iff in Hm. destruct Hm as [Hm Hm3]. apply andb_true_iff in Hm. destruct Hm as [Hm1 Hm2].
+    rewrite Hn1, Hm1. cbn [andb]. unfold dfield_nl. apply andb_true_iff. split; now apply forallb_and.
+  - apply forallb_forall. intros e Hin. rewrite forallb_forall in Hne, He.
+    specialize (Hne e Hin). specialize (He e Hin). unfold error_names_ok in Hne. unfold error_nl.
+    apply andb_true_iff in Hne. destruct Hne as [Hn1 Hn2]. apply andb_true_iff in He. destruct He as [He1 He2].
+    rewrite Hn1, He1. cbn [andb]. unfold dfield_nl. now apply forallb_and.
+Qed.
+
+Theorem parse_render_normalise_wf t :
+  interface_wf_nl t = true -> known_commented_enum t = false ->
+  parse_interface (render t) = Accept (normalise t).
+Proof. intros Hw Hk. apply parse_render_normalise. now apply wf_nl_iface. Qed.
+
+(* the stricter hypotheses of C14_parse_render: no leading blanks, so normalise is the identity *)
+Lemma ncs_id cs : comments_ok cs = true -> comments_nl cs = true /\ ncs cs = cs.
+Proof.
+  unfold comments_ok, comments_nl, ncs. induction cs as [|c cs IH]; intros H; [auto|].
+  cbn [forallb] in H. apply andb_true_iff in H. destruct H as [Hc Hcs].
+  destruct (comment_ok_nl c Hc) as [H1 H2]. destruct (IH Hcs) as [H3 H4].
+  cbn [forallb List.map]. now rewrite H1, H2, H3, H4.
+Qed.
+
+Lemma map_id_in {X} (f : X -> X) l : (forall x, In x l -> f x = x) -> List.map f l = l.
+Proof. intros H. rewrite <- (List.map_id l) at 2. apply List.map_ext_in. exact H. Qed.
+
+Lemma fields_id fs : forallb field_wf fs = true ->
+  forallb field_wf_nl fs = true /\ List.map nfield fs = fs.
+Proof.
+  intros H. split.
+  - apply forallb_forall. intros f Hf. rewrite forallb_forall in H. specialize (H f Hf).
+    unfold field_wf in H. unfold field_wf_nl. apply andb_true_iff in H. destruct H as [H1 H2].
+    destruct (ncs_id _ H1) as [H3 _]. now rewrite H3, H2.
+  - apply map_id_in. intros f Hf. rewrite forallb_forall in H. specialize (H f Hf).
+    unfold field_wf in H. apply andb_true_iff in H. destruct H as [H1 _].
+    destruct (ncs_id _ H1) as [_ H4]. destruct f as [n t cs]. unfold nfield. cbn in *. now rewrite H4.
+Qed.
+
+Lemma wf_strict t : interface_wf t = true -> interface_wf_nl t = true /\ normalise t = t.
+Proof.
+  unfold interface_wf, interface_wf_nl. intros H.
+  apply andb_true_iff in H. destruct H as [H He]. apply andb_true_iff in H. destruct H as [H Hm].
+  apply andb_true_iff in H. destruct H as [H Ht]. apply andb_true_iff in H. destruct H as [Hn Hc].
+  destruct (ncs_id _ Hc) as [Hc1 Hc2].
+  assert (Ht' : forallb custom_wf_nl (itypes t) = true /\ List.map ncustom (itypes t) = itypes t).
+  { split.
+    - apply forallb_forall. intros c Hin. rewrite forallb_forall in Ht. specialize (Ht c Hin).
+      destruct c as [n fs cs | n vs cs]; cbn [custom_wf custom_wf_nl] in *.
+      + apply andb_true_iff in Ht. destruct Ht as [A B]. destruct (ncs_id _ A) as [A1 _].
+        destruct (fields_id _ B) as [B1 _]. now rewrite A1, B1.
+      + apply andb_true_iff in Ht. destruct Ht as [Ht C]. apply andb_true_iff in Ht. destruct Ht as [A B].
+        destruct (ncs_id _ A) as [A1 _]. rewrite A1, B. cbn [andb].
+        apply forallb_forall. intros v Hv. rewrite forallb_forall in C. now destruct (ncs_id _ (C v Hv)).
+    - apply map_id_in. intros c Hin. rewrite forallb_forall in Ht. specialize (Ht c Hin).
+      destruct c as [n fs cs | n vs cs]; cbn [custom_wf ncustom] in *.
+      + apply andb_true_iff in Ht. destruct Ht as [A B]. destruct (ncs_id _ A) as [_ A2].
+        destruct (fields_id _ B) as [_ B2]. now rewrite A2, B2.
+      + apply andb_true_iff in Ht. destruct Ht as [Ht C]. apply andb_true_iff in Ht. destruct Ht as [A B].
+        destruct (ncs_id _ A) as [_ A2]. rewrite A2. f_equal.
+        apply map_id_in. intros v Hv. rewrite forallb_forall in C. destruct (ncs_id _ (C v Hv)) as [_ E].
+        destruct v as [vn vcs]. unfold nvariant. cbn in *. now rewrite E. }
+  assert (Hm' : forallb (fun m => comments_nl (mcomments m) && forallb field_wf_nl (minputs m)
+                                  && forallb field_wf_nl (moutputs m)) (imethods t) = true
+                /\ List.map nmethod (imethods t) = imethods t).
+  { split.
+    - apply forallb_forall. intros m Hin. rewrite forallb_forall in Hm. specialize (Hm m Hin).
+      apply andb_true_iff in Hm. destruct Hm as [Hm C]. apply andb_true_iff in Hm. destruct Hm as [A B].
+      destruct (ncs_id _ A) as [A1 _]. destruct (fields_id _ B) as [B1 _]. destruct (fields_id _ C) as [C1 _].
+      now rewrite A1, B1, C1.
+    - apply map_id_in. intros m Hin. rewrite forallb_forall in Hm. specialize (Hm m Hin).
+      apply andb_true_iff in Hm. destruct Hm as [Hm C]. apply andb_true_iff in Hm. destruct Hm as [A B].
+      destruct (ncs_id _ A) as [_ A2]. destruct (fields_id _ B) as [_ B2]. destruct (fields_id _ C) as [_ C2].
+      destruct m. unfold nmethod. cbn in *. now rewrite A2, B2, C2. }
+  assert (He' : forallb (fun e => comments_nl (ecomments e) && forallb field_wf_nl (efields e)) (ierrors t) = true
+                /\ List.map nerror (ierrors t) = ierrors t).
+  { split.
+    - apply forallb_forall. intros e Hin. rewrite forallb_forall in He. specialize (He e Hin).
+      apply andb_true_iff in He. destruct He as [A B].
+      destruct (ncs_id _ A) as [A1 _]. destruct (fields_id _ B) as [B1 _]. now rewrite A1, B1.
+    - apply map_id_in. intros e Hin. rewrite forallb_forall in He. specialize (He e Hin).
+      apply andb_true_iff in He. destruct He as [A B].
+      destruct (ncs_id _ A) as [_ A2]. destruct (fields_id _ B) as [_ B2].
+      destruct e. unfold nerror. cbn in *. now rewrite A2, B2. }
+  destruct Ht' as [T1 T2]. destruct Hm' as [M1 M2]. destruct He' as [E1 E2].
+  split.
+  - now rewrite Hn, Hc1, T1, M1, E1.
+  - unfold normalise. rewrite T2, M2, E2, Hc2. destruct t. reflexivity.
+Qed.
+
+Corollary parse_render_from_normalise t :
+  interface_wf t = true -> known_commented_enum t = false -> parse_interface (render t) = Accept t.
+Proof.
+  intros Hw Hk. destruct (wf_strict t Hw) as [Hnl Hid].
+  rewrite <- Hid at 2. now apply parse_render_normalise_wf.
 Qed.
